@@ -508,6 +508,13 @@ func (css *Consensus) batchWorker() {
 			batchCurSize = 0
 
 		case <-batchTimer.C:
+			// The timer is armed before the first item is added. If
+			// adding that item failed nothing has been batched:
+			// committing would publish a nil delta (go-ds-crdt
+			// panics on it). The timer is re-armed by the next item.
+			if batchCurSize == 0 {
+				continue
+			}
 			// Commit
 			if err := css.batchingState.Commit(css.ctx); err != nil {
 				logger.Errorf("error commiting batch after reaching max age: %s", err)
